@@ -1,3 +1,4 @@
+import copy
 from random import random
 from math import isinf, nan
 import networkx as nx
@@ -22,7 +23,7 @@ class Node(object):
         self.service_discipline = node.service_discipline
         self.next_event_type = None
         if isinstance(node.number_of_servers, Schedule):
-            self.schedule = node.number_of_servers
+            self.schedule = copy.deepcopy(node.number_of_servers)
             self.schedule.initialise()
             self.c = self.schedule.c
             if self.schedule.schedule_type == 'slotted':
